@@ -14,6 +14,8 @@ SERVES = ["C13", "C09"]
 FUNCTIONS = [SRC + "::CompoundStateSpace::" + f for f in ("new", "distance", "interpolate", "sample_uniform", "enforce_bounds", "satisfies_bounds", "get_longest_valid_segment_length")] + \
     [ANY + "::<T as AnyStateSpace>::" + f for f in ("distance_dyn", "interpolate_dyn", "enforce_bounds_dyn", "satisfies_bounds_dyn", "get_longest_valid_segment_length_dyn")] + \
     [f_ + "::" + t + "::" + f for f_, t in ((SE2, "SE2StateSpace"), (SE3, "SE3StateSpace")) for f in ("new", "distance", "interpolate", "enforce_bounds", "satisfies_bounds", "sample_uniform", "get_longest_valid_segment_length")]
+# functions whose contract pins an exact float expression (see check.py: a failure counts only with a concrete failing input)
+PROXY_FUNCTIONS = ["distance", "get_longest_valid_segment_length"]
 TRUSTED = ["verus/prelude/spaces.rs: the AnyStateSpace trait DECLARATION with its contract replaces the declaration in any_state_space.rs (the blanket impl with the downcasts IS verified against it); std::any::Any downcasts as the spec function dc::<S>() (downcast_state_ref / downcast_state_mut_unwrap stubs); compound_as_dyn_mut / rng_as_dyn stand for `&mut` unsizing coercions",
            "component spaces RealVectorStateSpace / SO2StateSpace / SO3StateSpace are opaque stubs in this unit (uninterpreted deterministic component functions, constructor = uninterpreted function new_spec_*)",
            "AnyStateSpace::sample_uniform_dyn of the blanket impl is external_body (local struct + impl inside the function body); Clone impls are external",
